@@ -170,6 +170,29 @@ def compile_properties(cid):
     return res, names, out
 
 
+
+def coqchk_axioms(cid, timeout=2400):
+    """Independent re-check of Properties/Cxx.vo and everything it depends on with coqchk -o.
+    Returns (ok, axioms, detail)."""
+    with BuildLock():
+        rc, out, err = sh(f"coqchk -silent -o -Q . SK SK.Properties.{cid}", cwd=COQ, timeout=timeout)
+    txt = out + err
+    if rc != 0:
+        return False, [], txt[-1500:]
+    mm = re.search(r"\* Axioms:(.*?)\n\s*\n\* ", txt, re.S)
+    axs = []
+    if mm and "<none>" not in mm.group(1):
+        axs = [a.strip() for a in mm.group(1).strip().splitlines() if a.strip()]
+    unsafe = []
+    for title in ("type-in-type", "unsafe (co)fixpoints", "positivity is assumed"):
+        m2 = re.search(re.escape(title) + r":(.*?)(\n\s*\n|$)", txt, re.S)
+        if m2 and "<none>" not in m2.group(1):
+            unsafe.append(title + ":" + m2.group(1).strip()[:200])
+    bad = [a for a in axs if not any(a.endswith(al) or a.endswith(al.split(".")[-1]) for al in ALLOWED_AXIOMS)
+           and not any(pp.rstrip(".") in a for pp in ALLOWED_PRIMITIVE_PREFIXES)]
+    return (not bad and not unsafe), axs, ("non-allowed axioms " + str(bad) if bad else "") + (" ".join(unsafe))
+
+
 def axioms_ok(axs):
     bad = []
     for a in axs:
@@ -412,6 +435,16 @@ def run_check(cid, tier, seed):
                 else:
                     discharged.append(nm)
 
+    coqchk = None
+    if tier == "thorough" and ok and not os.environ.get("VERIF_NO_COQCHK"):
+        ck_ok, ck_axs, ck_detail = coqchk_axioms(cid)
+        coqchk = {"ok": ck_ok, "axioms": ck_axs, "detail": ck_detail[:500]}
+        obligations.append("coqchk -o SK.Properties." + cid)
+        if ck_ok:
+            discharged.append("coqchk -o SK.Properties." + cid)
+        else:
+            theorem_fail.append({"obligation": "coqchk -o (independent re-check of the compiled theorems)", "detail": ck_detail[:1500]})
+
     # ---- (2) correspondence ----
     corr_error = None
     try:
@@ -478,6 +511,7 @@ def run_check(cid, tier, seed):
             "checker_cmd": f"cd coq && make Properties/{cid}.vo && coqc -Q . SK Properties/{cid}.v  (Print Assumptions parsed)",
             "trusted_base": info.get("trusted_base", []),
             "axioms_per_theorem": assumptions_seen,
+            "coqchk": coqchk,
             "evaluations": max(ctx.evaluations, 1),
             "distinct_nontrivial": len(ctx.nontrivial),
             "traces_validated_against_impl": ctx.evaluations,
